@@ -1,0 +1,17 @@
+// Copyright 2024 The Mellium Contributors.
+// Use of this source code is governed by the BSD 2-clause
+// license that can be found in the LICENSE file.
+
+//go:build verif
+
+package xmpp
+
+// VerifDrainOutput flushes whatever is left in the output encoder's buffer to
+// the connection, bypassing the closed-state checks. The verification harness
+// calls it at the very end of a scenario, after it has recorded the wire, to
+// observe what was encoded but never flushed.
+func (s *Session) VerifDrainOutput() error {
+	s.out.Lock()
+	defer s.out.Unlock()
+	return s.out.e.Flush()
+}
